@@ -3,6 +3,7 @@ use crate::engine::{Ctx, Fail};
 pub mod c02;
 pub mod c03;
 pub mod c04;
+pub mod c05;
 pub mod c06;
 pub mod c08;
 pub mod c12;
@@ -14,6 +15,7 @@ pub fn run(ctx: &Ctx) -> bool {
         "C02" => c02::run(ctx),
         "C03" => c03::run(ctx),
         "C04" => c04::run(ctx),
+        "C05" => c05::run(ctx),
         "C06" => c06::run(ctx),
         "C08" => c08::run(ctx),
         "C12" => c12::run(ctx),
@@ -30,6 +32,7 @@ fn replay_one(ctx: &Ctx, sub: &str, input: &serde_json::Value) -> Option<Result<
         "C02" => c02::replay(ctx, sub, input),
         "C03" => c03::replay(ctx, input),
         "C04" => c04::replay(ctx, sub, input),
+        "C05" => c05::replay(ctx, sub, input),
         "C06" => c06::replay(ctx, sub, input),
         "C08" => c08::replay(ctx, sub, input),
         "C12" => c12::replay(ctx, sub, input),
